@@ -43,6 +43,10 @@ func init() {
 			Run: func(P *Program, R *Report) { rangeParametersRule(P, R) }},
 		Rule{ID: "C17.k", Explain: "sub-structures are complete: in package keyproof every slice made with a computed length and filed in a struct field (the per-square, per-bit and per-step sub-structures, commitments and proofs) has every element visited by a full walk - a loop from 0 by 1 over a collection of that length or up to that count - that stores into or hands out element i. A walk that starts at 1 leaves element 0 at its zero value: an empty relation that nobody proves or checks (for instance the representation proof of the first square), while every honest proof still verifies.",
 			Run: func(P *Program, R *Report) { madeSlicesFilledRule(P, R, "C17.k", "keyproof", 0) }},
+		Rule{ID: "C17.l", Explain: "the group prime of a key proof is what the table says: findConvenientPrime returns 2^Exp - Diff with Exp and Diff taken from the same chosen row (symbolic term of the returned integer) - with another field in Diff's place the number has the right size and is not a safe prime, and proofs for the production key sizes, which all take their group prime from the table, cannot be built.",
+			Run: func(P *Program, R *Report) { convenientPrimeRule(P, R, "C17.l") }},
+		Rule{ID: "C17.m", Explain: "a proof structure keeps its own copy of every integer it is given: in the structure constructors of package keyproof no *big.Int parameter (or element of a slice parameter) is stored as it is into the structure under construction - the structure's N feeds the hashed list, the group-prime size and the modulus of the quasi-safe-prime-product check, so an aliased N makes the verdict on one and the same proof depend on what the caller does with its integer afterwards.",
+			Run: func(P *Program, R *Report) { structuresCopyRule(P, R, "C17.m") }},
 		Rule{ID: "C17.g", Explain: "CanProve tests the residue conditions and safe primality (C16.f).",
 			Run: func(P *Program, R *Report) { canProveRule(P, R, "C17.g") }},
 	)
@@ -1471,4 +1475,96 @@ func madeSlicesFilledRule(P *Program, R *Report, rule, pkg string, floor int) {
 		R.decide(rule, FuncKey(fn)+":filled("+m.target+")", "every element of the made slice is visited by a full walk (from 0 by 1, over a collection of the made length)", visited, strings.Join(partial, "; "), P.Pos(m.st.Pos()))
 	}
 	R.decide(rule, pkg+":made-slices", fmt.Sprintf("made slices filed in struct fields were found (>= %d)", floor), len(mades) >= floor, fmt.Sprintf("%d", len(mades)), "")
+}
+
+// convenientPrimeRule: the table-driven group prime is 2^Exp - Diff of ONE row of the table (C17.l).
+func convenientPrimeRule(P *Program, R *Report, rule string) {
+	fn := mustFunc(P, R, rule, "keyproof.findConvenientPrime")
+	if fn == nil {
+		return
+	}
+	// ret := 1 << row.Exp; diff := row.Diff; ret -= diff; return &ret  (value-typed locals: matched on the calls)
+	var shiftObj, diffObj, subRecv, subArg *ssa.Alloc
+	var got []string
+	for _, ci := range callsIn(fn) {
+		c, isC := ci.(*ssa.Call)
+		if !isC {
+			continue
+		}
+		ar := callArgs(c)
+		switch bigMethod(c) {
+		case "Lsh":
+			if len(ar) == 3 && strings.HasSuffix(desc(ar[2]), ".Exp") {
+				shiftObj = rootAlloc(ar[0])
+			}
+			got = append(got, "Lsh by "+desc(ar[2]))
+		case "SetUint64":
+			if len(ar) == 2 && strings.HasSuffix(desc(ar[1]), ".Diff") {
+				diffObj = rootAlloc(ar[0])
+			}
+			got = append(got, "SetUint64("+desc(ar[1])+")")
+		case "Sub":
+			if len(ar) == 3 && rootAlloc(ar[0]) == rootAlloc(ar[1]) {
+				subRecv, subArg = rootAlloc(ar[0]), rootAlloc(ar[2])
+			}
+		}
+	}
+	ok := shiftObj != nil && diffObj != nil && subRecv == shiftObj && subArg == diffObj
+	n := 0
+	for _, r := range returnsOf(fn) {
+		if v := retValue(r, 0); !isNilConst(v) {
+			n++
+			if rootAlloc(v) != shiftObj {
+				ok = false
+			}
+		}
+	}
+	R.decide(rule, "keyproof.findConvenientPrime:value", "the prime taken from the table is 2^Exp - Diff of the row that was chosen", ok && n >= 1, strings.Join(got, " | "), P.Pos(fn.Pos()))
+}
+
+// structuresCopyRule (C17.m): a proof structure keeps its own copy of every integer it is given: in the constructors
+// of package keyproof (new...Structure / New...Structure) no *big.Int parameter is stored as it is into the
+// structure under construction (`s.n = N`): the caller's integer may change later, and the structure's verdict on a
+// proof with it.
+func structuresCopyRule(P *Program, R *Report, rule string) {
+	n := 0
+	for _, fn := range P.AllFuncs {
+		if fn.Blocks == nil || fn.Pkg == nil || shortPkg(fn.Pkg.Pkg.Path()) != "keyproof" || strings.HasSuffix(P.Pos(fn.Pos()), "_test.go") {
+			continue
+		}
+		name := strings.ToLower(fn.Name())
+		if !strings.HasPrefix(name, "new") || !strings.HasSuffix(name, "structure") {
+			continue
+		}
+		n++
+		var bad []string
+		allInstrs(fn, func(i ssa.Instruction) {
+			st, ok := i.(*ssa.Store)
+			if !ok || !isBigIntPtr(st.Val.Type()) {
+				return
+			}
+			switch st.Addr.(type) {
+			case *ssa.FieldAddr, *ssa.IndexAddr:
+			default:
+				return
+			}
+			v := st.Val
+			if ct, isCT := v.(*ssa.ChangeType); isCT {
+				v = ct.X
+			}
+			if p, isP := v.(*ssa.Parameter); isP {
+				bad = append(bad, fmt.Sprintf("%s = parameter %s at %s", desc(st.Addr), p.Name(), P.Pos(st.Pos())))
+			}
+			// an element of a slice parameter stored as it is
+			if ld, isLd := v.(*ssa.UnOp); isLd && ld.Op == token.MUL {
+				if ia, isIA := ld.X.(*ssa.IndexAddr); isIA {
+					if _, isP := ia.X.(*ssa.Parameter); isP {
+						bad = append(bad, fmt.Sprintf("%s = element of a parameter at %s", desc(st.Addr), P.Pos(st.Pos())))
+					}
+				}
+			}
+		})
+		R.decide(rule, FuncKey(fn)+":copies", "integers handed to the constructor are copied, not kept", len(bad) == 0, strings.Join(bad, "; "), P.Pos(fn.Pos()))
+	}
+	R.decide(rule, "keyproof:constructors", "structure constructors were found (>= 8)", n >= 8, fmt.Sprintf("%d", n), "")
 }
